@@ -212,7 +212,15 @@ func c03Remove(r *Run, fn *ssa.Function) {
 	if c := r.OneCall(fn, "removeExtension:parse", "asn1.Unmarshal"); c != nil {
 		r.ExpectArg(c, "removeExtension:parse.data", 0, "p0")
 		if rest := CallResult(c, 0); rest != nil {
-			r.FailEdge(fn, "removeExtension", EdgeSpec{Name: "trailing-bytes", Atom: ordAtomR("len("+r.D.D(rest)+")", "0"), Bad: ">", Want: wantErr(true)})
+			// refusal = a non-nil error and no data (a further result that callers ignore may hold anything)
+			refused := func(r *Run, ret *ssa.Return) (bool, string) {
+				if n := len(ret.Results); n < 2 || errKind(ret.Results[n-1]) == "nil" {
+					return false, "returns a nil error"
+				}
+				d := r.D.D(ret.Results[0])
+				return d == "nil", "returns the data " + d
+			}
+			r.FailEdge(fn, "removeExtension", EdgeSpec{Name: "trailing-bytes", Atom: ordAtomR("len("+r.D.D(rest)+")", "0"), Bad: ">", Want: refused})
 		} else {
 			r.Fail("removeExtension:trailing-bytes", r.Where(c), "the remainder of the parse is discarded")
 		}
@@ -223,43 +231,70 @@ func c03Remove(r *Run, fn *ssa.Function) {
 		r.Fail("removeExtension:removal", r.FnPos(fn), fmt.Sprintf("%d stores to tbs.Extensions", len(sts)))
 		return
 	}
-	idx, ok := c03IsRemoval(r, sts[0].Val, "new:x509.tbsCertificate#0.Extensions")
-	r.Check("removeExtension:removal-shape", ok, r.Where(sts[0]), "Extensions ← "+r.D.D(sts[0].Val)+" (must be ext[:i] ++ ext[i+1:] or slices.Delete(ext, i, i+1))")
+	ext := "new:x509.tbsCertificate#0.Extensions"
+	idx, ok := c03IsRemoval(r, sts[0].Val, ext)
+	how := ""
+	if !ok {
+		idx, how = c03FilterRemoval(r, fn, sts[0], ext)
+		ok = idx != nil
+	}
+	r.Check("removeExtension:removal-shape", ok, r.Where(sts[0]), "Extensions ← "+r.D.D(sts[0].Val)+" (must be ext[:i] ++ ext[i+1:], slices.Delete(ext, i, i+1), or every ext[j] with j ≠ i appended in order to an empty slice) "+how)
 	if !ok {
 		return
 	}
-	// i is set only from the loop index at which the OID matched
-	ph, isPhi := idx.(*ssa.Phi)
-	if !isPhi {
-		r.Fail("removeExtension:matched-index", r.Where(sts[0]), "undecided: the removed index is not the loop-carried match position")
-		return
-	}
-	if isInduction(ph) {
-		r.Fail("removeExtension:matched-index", r.Where(sts[0]), "undecided: the removed index is a loop counter itself, not a recorded match position")
-		return
-	}
-	// the values the index can hold: the φ-web is followed down to constants and
-	// loop positions (a loop counter is a value, not a merge: `for i, x := range xs`
-	// and `for i := 0; i < len(xs); i++` both give the position it@N)
+	// i is set only from the loop index at which the OID matched.  Two representations of
+	// "the positions that matched": one integer (−1 = none yet, a second match is refused
+	// inside the loop), or the list of all of them (its length is tested afterwards and i is
+	// its only element).
+	var ph *ssa.Phi       // the integer
+	var matches *sliceAcc // the list
+	var posLeaves, keptLeaves []phiLeaf
 	okIdx := true
-	var matchIdx string
-	leaves := loopPosLeaves(ph)
-	var posLeaves []phiLeaf
-	for _, l := range leaves {
-		d := r.D.D(l.v)
-		if d == "-1" {
-			continue
+	matchIdx := ""
+	if p, isPhi := idx.(*ssa.Phi); isPhi {
+		if isInduction(p) {
+			r.Fail("removeExtension:matched-index", r.Where(sts[0]), "undecided: the removed index is a loop counter itself, not a recorded match position")
+			return
 		}
-		if !isLoopPos(d) || (matchIdx != "" && d != matchIdx) {
-			okIdx = false
+		ph = p
+		// the values the index can hold: the φ-web is followed down to constants and
+		// loop positions (a loop counter is a value, not a merge: `for i, x := range xs`
+		// and `for i := 0; i < len(xs); i++` both give the position it@N)
+		for _, l := range loopPosLeaves(ph) {
+			d := r.D.D(l.v)
+			if d == "-1" {
+				continue
+			}
+			if !isLoopPos(d) || (matchIdx != "" && d != matchIdx) {
+				okIdx = false
+			}
+			matchIdx = d
+			posLeaves = append(posLeaves, l)
 		}
-		matchIdx = d
-		posLeaves = append(posLeaves, l)
+		r.Check("removeExtension:matched-index", okIdx && matchIdx != "", r.Where(sts[0]), "the removed index takes only the values −1 and the loop position "+matchIdx)
+	} else if acc, why := c03FirstOf(idx); acc != nil {
+		matches = acc
+		for _, l := range acc.added {
+			d := r.D.D(l.v)
+			if !isLoopPos(d) || (matchIdx != "" && d != matchIdx) || d != fmt.Sprintf("it@%d", acc.hdr.Index) {
+				okIdx = false
+			}
+			matchIdx = d
+			posLeaves = append(posLeaves, l)
+		}
+		keptLeaves = acc.kept
+		// the list is complete when its element is read
+		at := idx.(ssa.Instruction).Block()
+		done := acc.hdr.Dominates(at) && !blockReachesBlock(at, acc.hdr)
+		r.Check("removeExtension:matched-index", okIdx && matchIdx != "" && done, r.Where(sts[0]), "the removed index is element 0 of the list of the loop positions "+matchIdx+" recorded by the finished loop")
+		okIdx = okIdx && done
+	} else {
+		r.Fail("removeExtension:matched-index", r.Where(sts[0]), "undecided: the removed index "+r.D.D(idx)+" is neither a loop-carried match position nor the first of a list of them "+why)
+		return
 	}
-	r.Check("removeExtension:matched-index", okIdx && matchIdx != "", r.Where(sts[0]), "the removed index takes only the values −1 and the loop position "+matchIdx)
 	if okIdx && matchIdx != "" {
 		// that loop visits every element of the extension list
-		ok, why := loopSweeps(r, fn, matchIdx, "new:x509.tbsCertificate#0.Extensions", true)
+		ok, why := loopSweeps(r, fn, matchIdx, ext, true)
 		r.Check("removeExtension:loop-covers-list", ok, r.Where(sts[0]), "the loop whose position is recorded visits every extension of the parsed TBS: "+why)
 	}
 	// the match test: Extensions[i].Id.Equal(oid) for that i
@@ -268,56 +303,412 @@ func c03Remove(r *Run, fn *ssa.Function) {
 		r.ExpectArg(eq[0], "removeExtension:match.oid", 1, "p1")
 		// the element may be read in place or through the per-iteration copy of a range loop
 		src := elemTerm(r, fn, CallArgs(eq[0])[0])
-		r.Check("removeExtension:match.element", okIdx && src == "new:x509.tbsCertificate#0.Extensions["+matchIdx+"].Id", r.Where(eq[0]), "the OID compared is "+src+" (that of the element at the recorded position)")
+		r.Check("removeExtension:match.element", okIdx && src == ext+"["+matchIdx+"].Id", r.Where(eq[0]), "the OID compared is "+src+" (that of the element at the recorded position)")
 		// the position is recorded only when the comparison said "equal" (and is recorded then)
 		if eqv := eq[0].Value(); eqv != nil && len(posLeaves) > 0 {
 			key := r.D.Classify(eqv).Key
 			for _, v := range []string{"F", "T"} {
 				reach := r.D.Walk(fn, Sigma{key: v}, nil, nil)
 				r.Valuations++
-				taken := false
-				for _, l := range posLeaves {
-					if reach.Edges[[2]int{l.phi.Block().Preds[l.edge].Index, l.phi.Block().Index}] {
-						taken = true
-					}
+				taken := leafTaken(reach, posLeaves)
+				okRec := taken == (v == "T")
+				if matches != nil { // … and every way round the loop that leaves the list as it is, is a non-match
+					okRec = okRec && leafTaken(reach, keptLeaves) == (v == "F")
 				}
-				r.Check("removeExtension:index-recorded-iff-matched["+v+"]", taken == (v == "T"), r.Where(eq[0]), fmt.Sprintf("OID comparison = %s ⇒ position recorded: %v", v, taken))
+				r.Check("removeExtension:index-recorded-iff-matched["+v+"]", okRec, r.Where(eq[0]), fmt.Sprintf("OID comparison = %s ⇒ position recorded: %v", v, taken))
 			}
 		}
-		// not matched ⇒ index not taken; matched twice ⇒ error
-		// a second match (index already set) inside the loop ⇒ error, nothing removed
-		n2 := 0
-		for _, b := range r.blocksTesting(fn, func(ci *CondInfo) bool { return ci.Kind == "ord" && (ci.A == "-1" || ci.B == "-1") }) {
-			if !blockReachesBlock(b, eq[0].Block()) {
-				continue // the test after the loop
-			}
-			n2++
-			ifi := b.Instrs[len(b.Instrs)-1].(*ssa.If)
-			ci := r.D.Classify(ifi.Cond)
-			for _, v := range []string{"<", ">"} {
-				reach := r.D.Walk(fn, Sigma{ci.Key: v}, b, nil)
-				r.Valuations++
-				okE := !reach.Has(sts[0])
-				for _, ret := range reachableReturns(fn, reach) {
-					if errKind(ret.Results[1]) == "nil" {
-						okE = false
-					}
+		if ph != nil {
+			// not matched ⇒ index not taken; matched twice ⇒ error
+			// a second match (index already set) inside the loop ⇒ error, nothing removed
+			n2 := 0
+			for _, b := range r.blocksTesting(fn, func(ci *CondInfo) bool { return ci.Kind == "ord" && (ci.A == "-1" || ci.B == "-1") }) {
+				if !blockReachesBlock(b, eq[0].Block()) {
+					continue // the test after the loop
 				}
-				r.Check("removeExtension:second-occurrence["+v+"]", okE, r.Where(ifi), "a second extension of the requested type ⇒ error, nothing removed")
+				n2++
+				ifi := b.Instrs[len(b.Instrs)-1].(*ssa.If)
+				ci := r.D.Classify(ifi.Cond)
+				for _, v := range []string{"<", ">"} {
+					reach := r.D.Walk(fn, Sigma{ci.Key: v}, b, nil)
+					r.Valuations++
+					okE := !reach.Has(sts[0])
+					for _, ret := range reachableReturns(fn, reach) {
+						if errKind(ret.Results[len(ret.Results)-1]) == "nil" {
+							okE = false
+						}
+					}
+					r.Check("removeExtension:second-occurrence["+v+"]", okE, r.Where(ifi), "a second extension of the requested type ⇒ error, nothing removed")
+				}
 			}
+			r.Check("removeExtension:second-occurrence-tested", n2 == 1, r.Where(eq[0]), "inside the loop a match tests whether an earlier match exists")
 		}
-		r.Check("removeExtension:second-occurrence-tested", n2 == 1, r.Where(eq[0]), "inside the loop a match tests whether an earlier match exists")
 	} else {
 		r.Fail("removeExtension:match", r.FnPos(fn), fmt.Sprintf("%d OID comparisons", len(eq)))
 	}
-	// absent ⇒ error: while the index still holds −1 neither the removal nor a success
-	// return executes (and they do otherwise); a missing test leaves the obligation undecided
-	absentKey := ordAtom("-1", r.D.D(idx), map[string]bool{}).Key
-	r.MustGuard(fn, "removeExtension:absent-is-error", absentKey, "=", append([]ssa.Instruction{sts[0]}, successReturns(fn)...), "removal of an extension / success return")
+	markers := append([]ssa.Instruction{sts[0]}, successReturns(fn)...)
+	if ph != nil {
+		// absent ⇒ error: while the index still holds −1 neither the removal nor a success
+		// return executes (and they do otherwise); a missing test leaves the obligation undecided
+		absentKey := ordAtom("-1", r.D.D(idx), map[string]bool{}).Key
+		r.MustGuard(fn, "removeExtension:absent-is-error", absentKey, "=", markers, "removal of an extension / success return")
+	} else {
+		// the list holds every matching position: removal and success only when there is exactly one
+		c03ExactlyOne(r, fn, matches, markers)
+	}
 	// the result is the re-marshalled, modified struct
 	for _, ret := range Returns(fn) {
-		if errKind(ret.Results[1]) == "nil" {
+		if errKind(ret.Results[len(ret.Results)-1]) == "nil" {
 			r.Check("removeExtension:result", r.D.D(ret.Results[0]) == "asn1.Marshal(*new:x509.tbsCertificate#0)#0", r.Where(ret), "returns "+r.D.D(ret.Results[0]))
+		}
+	}
+}
+
+func leafTaken(reach *Reach, ls []phiLeaf) bool {
+	for _, l := range ls {
+		if reach.Edges[[2]int{l.phi.Block().Preds[l.edge].Index, l.phi.Block().Index}] {
+			return true
+		}
+	}
+	return false
+}
+
+// sliceAcc: a slice that a loop builds element by element.  root is the loop-carried value in
+// the loop header; it enters the loop empty (nil or make(T, 0, …)), and every way round the
+// loop either leaves it as it is (kept) or appends exactly one element to its current value
+// (added; the leaf value is that element).  After the loop root therefore lists, in iteration
+// order, the elements of the iterations that went round an `added` way.
+type sliceAcc struct {
+	root  *ssa.Phi
+	hdr   *ssa.BasicBlock
+	kept  []phiLeaf
+	added []phiLeaf
+}
+
+func (a *sliceAcc) inLoop(b *ssa.BasicBlock) bool {
+	return a.hdr.Dominates(b) && (b == a.hdr || blockReachesBlock(b, a.hdr))
+}
+
+func sliceAccOf(v ssa.Value) (*sliceAcc, string) {
+	root, ok := v.(*ssa.Phi)
+	if !ok || isInduction(root) {
+		return nil, "not a loop-carried value"
+	}
+	if _, isSlice := root.Type().Underlying().(*types.Slice); !isSlice {
+		return nil, "not a slice"
+	}
+	acc := &sliceAcc{root: root, hdr: root.Block()}
+	if !blockReachesBlock(acc.hdr, acc.hdr) {
+		return nil, "not merged in a loop header"
+	}
+	web := map[*ssa.Phi]bool{}
+	var bases []ssa.Value
+	why := ""
+	var visit func(p *ssa.Phi)
+	visit = func(p *ssa.Phi) {
+		if web[p] {
+			return
+		}
+		web[p] = true
+		if p != root && (p.Block() == acc.hdr || !acc.inLoop(p.Block())) {
+			why = "merged outside the loop body"
+			return
+		}
+		for i, e := range p.Edges {
+			if p == root && !acc.inLoop(p.Block().Preds[i]) {
+				// entering the loop
+				mk, isMake := e.(*ssa.MakeSlice)
+				if !isNilConst(e) && !(isMake && isConstInt(mk.Len, 0)) {
+					why = "does not enter the loop empty"
+				}
+				continue
+			}
+			switch x := e.(type) {
+			case *ssa.Phi:
+				if x == root {
+					acc.kept = append(acc.kept, phiLeaf{e, p, i})
+				} else {
+					visit(x)
+				}
+			case *ssa.Call:
+				b, isB := x.Call.Value.(*ssa.Builtin)
+				if !isB || b.Name() != "append" || len(x.Call.Args) != 2 {
+					why = "updated by something other than append"
+					continue
+				}
+				el := oneElem(x.Call.Args[1])
+				if el == nil {
+					why = "append of something other than one element"
+					continue
+				}
+				bases = append(bases, x.Call.Args[0])
+				acc.added = append(acc.added, phiLeaf{el, p, i})
+			default:
+				why = "updated by something other than append"
+			}
+		}
+	}
+	visit(root)
+	for _, b := range bases { // what is appended to is the current value of the slice
+		if q, isPhi := b.(*ssa.Phi); !isPhi || !web[q] {
+			why = "append to something other than the slice's current value"
+		}
+	}
+	if why != "" || len(acc.added) == 0 {
+		return nil, "not built by appending single elements: " + why
+	}
+	return acc, ""
+}
+
+// oneElem: the x of append(s, x) — go/ssa passes new:[1]T{x}[:].
+func oneElem(v ssa.Value) ssa.Value {
+	sl, ok := v.(*ssa.Slice)
+	if !ok || sl.Low != nil || sl.High != nil || sl.Max != nil {
+		return nil
+	}
+	al, ok := sl.X.(*ssa.Alloc)
+	if !ok {
+		return nil
+	}
+	arr, ok := al.Type().(*types.Pointer).Elem().Underlying().(*types.Array)
+	if !ok || arr.Len() != 1 {
+		return nil
+	}
+	var el ssa.Value
+	for _, ref := range *al.Referrers() {
+		switch x := ref.(type) {
+		case *ssa.Slice, *ssa.DebugRef:
+		case *ssa.IndexAddr:
+			for _, r2 := range *x.Referrers() {
+				st, isStore := r2.(*ssa.Store)
+				if !isStore || st.Addr != ssa.Value(x) || el != nil {
+					return nil
+				}
+				el = st.Val
+			}
+		default:
+			return nil
+		}
+	}
+	return el
+}
+
+// c03FirstOf: v is acc[0] for a slice acc built by a loop.
+func c03FirstOf(v ssa.Value) (*sliceAcc, string) {
+	ld, ok := v.(*ssa.UnOp)
+	if !ok || ld.Op != token.MUL {
+		return nil, ""
+	}
+	ia, ok := ld.X.(*ssa.IndexAddr)
+	if !ok || !isConstInt(ia.Index, 0) {
+		return nil, ""
+	}
+	return sliceAccOf(ia.X)
+}
+
+// c03FilterRemoval recognises the removal written as a filter: the stored list is built by a
+// loop that sweeps ext front to back and appends ext[j] to an initially empty slice exactly
+// when j differs from one value i, which it returns (nil, reason otherwise).
+func c03FilterRemoval(r *Run, fn *ssa.Function, st *ssa.Store, ext string) (ssa.Value, string) {
+	acc, why := sliceAccOf(st.Val)
+	if acc == nil {
+		return nil, why
+	}
+	// stored when the loop is over
+	if !acc.hdr.Dominates(st.Block()) || blockReachesBlock(st.Block(), acc.hdr) {
+		return nil, "the list is stored before the loop that builds it is over"
+	}
+	pos := fmt.Sprintf("it@%d", acc.hdr.Index)
+	for _, l := range acc.added {
+		got := r.D.D(l.v)
+		if u, ok := l.v.(*ssa.UnOp); ok && u.Op == token.MUL {
+			if _, isA := u.X.(*ssa.Alloc); isA {
+				got = elemTerm(r, fn, u.X)
+			}
+		}
+		if got != ext+"["+pos+"]" {
+			return nil, "the element appended is " + got + ", not " + ext + "[" + pos + "]"
+		}
+	}
+	if ok, why := loopSweeps(r, fn, pos, ext, false); !ok {
+		return nil, "the building loop does not go through the list front to back: " + why
+	}
+	// the one comparison of the position that decides between appending and skipping
+	var cmp *ssa.BinOp
+	var other ssa.Value
+	for _, b := range fn.Blocks {
+		if !acc.inLoop(b) || b == acc.hdr || len(b.Instrs) == 0 {
+			continue
+		}
+		ifi, ok := b.Instrs[len(b.Instrs)-1].(*ssa.If)
+		if !ok {
+			continue
+		}
+		c := ifi.Cond
+		if u, isNot := c.(*ssa.UnOp); isNot && u.Op == token.NOT {
+			c = u.X
+		}
+		bo, ok := c.(*ssa.BinOp)
+		if !ok || (bo.Op != token.EQL && bo.Op != token.NEQ) {
+			return nil, "the building loop branches on something other than position == i"
+		}
+		var o ssa.Value
+		switch {
+		case r.D.D(bo.X) == pos:
+			o = bo.Y
+		case r.D.D(bo.Y) == pos:
+			o = bo.X
+		default:
+			return nil, "the building loop branches on something other than position == i"
+		}
+		if cmp != nil {
+			return nil, "the building loop compares the position more than once"
+		}
+		cmp, other = bo, o
+	}
+	if cmp == nil {
+		return nil, "the building loop appends every element"
+	}
+	// i does not change while the list is built: computed before the loop, or re-read in every
+	// iteration as element 0 of a slice that an earlier loop finished
+	if in, isIn := other.(ssa.Instruction); isIn && acc.inLoop(in.Block()) {
+		fin := false
+		if ld, isLoad := other.(*ssa.UnOp); isLoad && ld.Op == token.MUL {
+			if ia, isIA := ld.X.(*ssa.IndexAddr); isIA && isConstInt(ia.Index, 0) {
+				if q, isPhi := ia.X.(*ssa.Phi); isPhi && !acc.inLoop(q.Block()) {
+					fin = true
+				}
+			}
+		}
+		if !fin {
+			return nil, "the position compared with changes inside the building loop"
+		}
+	}
+	key := r.D.Classify(cmp).Key
+	for _, v := range []string{"<", "=", ">"} {
+		reach := r.D.Walk(fn, Sigma{key: v}, nil, nil)
+		r.Valuations++
+		if leafTaken(reach, acc.added) != (v != "=") || leafTaken(reach, acc.kept) != (v == "=") {
+			return nil, fmt.Sprintf("with the position %s i the element is appended: %v, skipped: %v", v, leafTaken(reach, acc.added), leafTaken(reach, acc.kept))
+		}
+	}
+	// no way out of the loop other than through its header
+	for _, b := range fn.Blocks {
+		if acc.inLoop(b) && b != acc.hdr {
+			for _, sb := range b.Succs {
+				if !acc.inLoop(sb) {
+					return nil, "the building loop can be left before the end of the list"
+				}
+			}
+		}
+	}
+	return other, ""
+}
+
+// c03ExactlyOne: matches lists every matching position.  For each possible length n, with the
+// comparisons of len(matches) against constants answered for that n, the markers (removal,
+// success returns) are reachable exactly when n = 1.
+func c03ExactlyOne(r *Run, fn *ssa.Function, matches *sliceAcc, markers []ssa.Instruction) {
+	type lenAtom struct {
+		key     string
+		c       int64
+		constIs string // "A" or "B": which operand of the atom is the constant
+	}
+	var atoms []lenAtom
+	maxC := int64(1)
+	undecided := ""
+	isLen := func(v ssa.Value) bool {
+		c, ok := v.(*ssa.Call)
+		if !ok {
+			return false
+		}
+		b, isB := c.Call.Value.(*ssa.Builtin)
+		return isB && b.Name() == "len" && len(c.Call.Args) == 1 && c.Call.Args[0] == ssa.Value(matches.root)
+	}
+	constOf := func(v ssa.Value) (int64, bool) {
+		c, ok := v.(*ssa.Const)
+		if !ok || c.Value == nil {
+			return 0, false
+		}
+		n, err := parseInt(c.Value.ExactString())
+		return n, err == nil
+	}
+	for _, b := range fn.Blocks {
+		if len(b.Instrs) == 0 {
+			continue
+		}
+		ifi, ok := b.Instrs[len(b.Instrs)-1].(*ssa.If)
+		if !ok {
+			continue
+		}
+		c := ifi.Cond
+		if u, isNot := c.(*ssa.UnOp); isNot && u.Op == token.NOT {
+			c = u.X
+		}
+		bo, ok := c.(*ssa.BinOp)
+		if !ok || !(isLen(bo.X) || isLen(bo.Y)) {
+			continue
+		}
+		if matches.inLoop(b) {
+			undecided = "the length of the list is tested while it is still being built"
+			continue
+		}
+		lenX := isLen(bo.X)
+		cv, isC := constOf(bo.Y)
+		if !lenX {
+			cv, isC = constOf(bo.X)
+		}
+		ci := r.D.Classify(bo)
+		if !isC || ci.Kind != "ord" {
+			continue // left open: both outcomes are explored
+		}
+		cs := fmt.Sprint(cv)
+		which := "B"
+		if ci.A == cs {
+			which = "A"
+		}
+		atoms = append(atoms, lenAtom{ci.Key, cv, which})
+		if cv > maxC {
+			maxC = cv
+		}
+	}
+	if undecided != "" {
+		r.Fail("removeExtension:exactly-one-match", r.FnPos(fn), "undecided: "+undecided)
+		return
+	}
+	cmp := func(a, b int64) string {
+		switch {
+		case a < b:
+			return "<"
+		case a > b:
+			return ">"
+		}
+		return "="
+	}
+	for n := int64(0); n <= maxC+1; n++ {
+		s := Sigma{}
+		for _, a := range atoms {
+			if a.constIs == "A" {
+				s[a.key] = cmp(a.c, n)
+			} else {
+				s[a.key] = cmp(n, a.c)
+			}
+		}
+		reach := r.D.Walk(fn, s, nil, nil)
+		r.Valuations++
+		var hit ssa.Instruction
+		for _, m := range markers {
+			if reach.Has(m) {
+				hit = m
+			}
+		}
+		switch {
+		case n == 1:
+			r.Check("removeExtension:exactly-one-match[n=1]", reach.Has(markers[0]), r.Where(markers[0]), "with one extension of the requested type the removal is reachable (positive control)")
+		case n == 0:
+			r.Check("removeExtension:absent-is-error", hit == nil, r.FnPos(fn), "no extension of the requested type ⇒ neither the removal nor a success return executes")
+		default:
+			r.Check(fmt.Sprintf("removeExtension:second-occurrence[n=%d]", n), hit == nil, r.FnPos(fn), fmt.Sprintf("%d extensions of the requested type ⇒ neither the removal nor a success return executes", n))
 		}
 	}
 }
@@ -606,11 +997,55 @@ func c03Siblings(r *Run) {
 	}
 }
 
+// createLeafInputs names the inputs of ctutil.createLeaf by what its callers hand over: the chain,
+// the SCT and the embedded flag of VerifySCTWithVerifier (LeafHash, the other caller, must hand
+// its own chain / SCT / flag to the same inputs).  Independent of the packaging of the
+// parameter list (three parameters, or one struct built at each call).
+func createLeafInputs(r *Run, key string, callers int) map[string]string {
+	order := []string{"chain", "sct", "embedded"}
+	var in map[string]string
+	for _, c := range []struct {
+		fn   string
+		want map[string]string
+	}{
+		{"ctutil.VerifySCTWithVerifier", map[string]string{"chain": "p1", "sct": "p2", "embedded": "p3"}},
+		{"ctutil.LeafHash", map[string]string{"chain": "p0", "sct": "p1", "embedded": "p2"}},
+	}[:callers] {
+		fn := r.Fn(c.fn)
+		if fn == nil {
+			return nil
+		}
+		call := r.OneCall(fn, key+"@"+short(c.fn), "ctutil.createLeaf")
+		if call == nil {
+			return nil
+		}
+		got, ok := r.roles(r.bindCall(call), key+"@"+short(c.fn), order, c.want)
+		if !ok {
+			return nil
+		}
+		if in == nil {
+			in = got
+			continue
+		}
+		for _, role := range order {
+			if !r.Check(key+"@"+short(c.fn)+":same-input["+role+"]", in[role] == got[role], r.Where(call), fmt.Sprintf("%s hands its %s to the input %s of createLeaf (VerifySCTWithVerifier: %s)", c.fn, role, got[role], in[role])) {
+				return nil
+			}
+		}
+	}
+	return in
+}
+
 func c03CreateLeaf(r *Run) {
 	fn := r.Fn("ctutil.createLeaf")
 	if fn == nil {
 		return
 	}
+	in := createLeafInputs(r, "createLeaf:input", 2)
+	if in == nil || !r.inputsReadOnly(fn, "createLeaf:inputs-read-only") {
+		return
+	}
+	chain, sct, embedded := in["chain"], in["sct"], in["embedded"]
 	emb := CallsTo(fn, "ct.MerkleTreeLeafForEmbeddedSCT")
 	reg := CallsTo(fn, "ct.MerkleTreeLeafFromChain")
 	con := CallsTo(fn, "ctutil.ContainsSCT")
@@ -618,27 +1053,28 @@ func c03CreateLeaf(r *Run) {
 		r.Fail("createLeaf:routes", r.FnPos(fn), "undecided: expected one call of each leaf constructor and of ContainsSCT")
 		return
 	}
-	r.ExpectArg(emb[0], "createLeaf:embedded.chain", 0, "p0")
-	r.ExpectArg(emb[0], "createLeaf:embedded.timestamp", 1, "p1.Timestamp")
-	r.ExpectArg(reg[0], "createLeaf:regular.chain", 0, "p0")
-	r.ExpectArg(reg[0], "createLeaf:regular.timestamp", 2, "p1.Timestamp")
-	r.ExpectArg(con[0], "createLeaf:contains.cert", 0, "p0[0]")
-	r.ExpectArg(con[0], "createLeaf:contains.sct", 1, "p1")
+	r.ExpectArg(emb[0], "createLeaf:embedded.chain", 0, chain)
+	r.ExpectArg(emb[0], "createLeaf:embedded.timestamp", 1, sct+".Timestamp")
+	r.ExpectArg(reg[0], "createLeaf:regular.chain", 0, chain)
+	r.ExpectArg(reg[0], "createLeaf:regular.timestamp", 2, sct+".Timestamp")
+	r.ExpectArg(con[0], "createLeaf:contains.cert", 0, chain+"[0]")
+	r.ExpectArg(con[0], "createLeaf:contains.sct", 1, sct)
+	contains := "ctutil.ContainsSCT(" + chain + "[0], " + sct + ")"
 	for _, e := range []string{"T", "F"} {
-		reach := r.D.Walk(fn, Sigma{"p2": e, "ctutil.ContainsSCT(p0[0], p1)#0": "T", "nil?ctutil.ContainsSCT(p0[0], p1)#1": "nil", "nil?p1": "non", "ord(0, len(p0))": "<"}, nil, nil)
+		reach := r.D.Walk(fn, Sigma{embedded: e, contains + "#0": "T", "nil?" + contains + "#1": "nil", "nil?" + sct: "non", "ord(0, len(" + chain + "))": "<"}, nil, nil)
 		r.Valuations++
 		r.Check("createLeaf:route[embedded="+e+"]", reach.Has(emb[0]) == (e == "T") && reach.Has(reg[0]) == (e == "F"), r.FnPos(fn), fmt.Sprintf("embedded=%s ⇒ embedded route %v, regular route %v", e, reach.Has(emb[0]), reach.Has(reg[0])))
 	}
 	for name, s := range map[string]Sigma{
-		"embedded-needs-containment": {"p2": "T", "ctutil.ContainsSCT(p0[0], p1)#0": "F"},
-		"containment-error":          {"p2": "T", "nil?ctutil.ContainsSCT(p0[0], p1)#1": "non"},
+		"embedded-needs-containment": {embedded: "T", contains + "#0": "F"},
+		"containment-error":          {embedded: "T", "nil?" + contains + "#1": "non"},
 	} {
 		reach := r.D.Walk(fn, s, nil, nil)
 		r.Valuations++
 		r.Check("createLeaf:"+name, !reach.Has(emb[0]) && reach.Has(con[0]), r.Where(emb[0]), fmt.Sprintf("under %s the embedded-route leaf is not built", s))
 	}
 	for _, p := range []string{"T", "F"} {
-		got := r.ArgUnder(fn, reg[0], 1, Sigma{"(*x509.Certificate).IsPrecertificate(p0[0])": p, "p2": "F"})
+		got := r.ArgUnder(fn, reg[0], 1, Sigma{"(*x509.Certificate).IsPrecertificate(" + chain + "[0])": p, embedded: "F"})
 		want := map[string]string{"T": "1", "F": "0"}[p]
 		r.Check("createLeaf:regular.type[isPrecert="+p+"]", got == want, r.Where(reg[0]), "entry type "+got+" (want "+want+")")
 	}
